@@ -54,6 +54,14 @@ impl<Tz> PartialOrd for DateTime<Tz> {
     fn partial_cmp(&self, other: &Self) -> (r: Option<Ordering>) { unimplemented!() }
 }
 
+impl Utc {
+    // chrono::Utc::now(): an otherwise unconstrained instant marked as a clock reading; nothing is assumed
+    // about how the clock advances
+    #[verifier::external_body]
+    pub fn now() -> (r: DateTime<Utc>) ensures clock_reading(r) { unimplemented!() }
+}
+pub uninterp spec fn clock_reading(d: DateTime<Utc>) -> bool;
+
 // ---- security::certificate::DistinguishedName --------------------------------------------------
 #[verifier::external_body]
 pub struct DistinguishedName { n: u8 }
@@ -70,3 +78,30 @@ impl DistinguishedName {
 // `impl PartialEq<String> for &str`: content equality
 pub assume_specification<'a>[ <&'a str as PartialEq<String>>::eq ](a: &&'a str, b: &String) -> (r: bool)
     ensures r == (a@ == b@);
+// std: "Returns None if the option is None, otherwise calls predicate with the wrapped value and returns
+// Some(t) if predicate returns true, None if it returns false"
+#[verifier::allow(undeclared_external_trait)]
+pub assume_specification<T, P: FnOnce(&T) -> bool + core::marker::Destruct>[ Option::<T>::filter ](o: Option<T>, f: P) -> (r: Option<T>)
+    where T: core::marker::Destruct
+    requires o matches Some(t) ==> f.requires((&t,)),
+    ensures
+        o is None ==> r is None,
+        o matches Some(t) ==> ((r == Some(t) && f.ensures((&t,), true)) || (r is None && f.ensures((&t,), false))),
+;
+// std: Option::is_some_and / Result::and_then — generic in the closure, which carries its own annotation (R6)
+#[verifier::allow(undeclared_external_trait)]
+pub assume_specification<T, F: FnOnce(T) -> bool + core::marker::Destruct>[ Option::<T>::is_some_and ](o: Option<T>, f: F) -> (r: bool)
+    where T: core::marker::Destruct
+    requires o matches Some(t) ==> f.requires((t,)),
+    ensures o is None ==> !r, o matches Some(t) ==> f.ensures((t,), r);
+#[verifier::allow(undeclared_external_trait)]
+pub assume_specification<T, E, U, F: FnOnce(T) -> Result<U, E> + core::marker::Destruct>[ Result::<T, E>::and_then ](r: Result<T, E>, op: F) -> (o: Result<U, E>)
+    requires r matches Ok(t) ==> op.requires((t,)),
+    ensures r matches Ok(t) ==> op.ensures((t,), o), r matches Err(e) ==> o == Err::<U, E>(e);
+
+// ---- security::types ---------------------------------------------------------------------------------
+pub type PermissionsHandle = u32;
+#[verifier::external_body] pub struct SecurityError { msg: String }
+pub type SecurityResult<T> = std::result::Result<T, SecurityError>;
+// what the macro create_security_error_and_log!(..) evaluates to: some SecurityError
+#[verifier::external_body] pub fn verif_security_error() -> SecurityError { unimplemented!() }
